@@ -209,7 +209,8 @@ def run(ctx, facts):
     ctx.floor("C12 hasher fields", nh, 8)
     ent_statics(ctx, facts)
     ns = seeds_listing(ctx, facts)
-    ctx.floor("C12 seeding site arguments", ns, 17)
+    # today 17; removing a seeding site (e.g. a rehash that is dropped) cannot break C12, so the floor only guards against a vacuous listing
+    ctx.floor("C12 seeding site arguments", ns, 12)
     nk = ctor_types(ctx, facts)
     ctx.floor("C12 constructors taking a hasher", nk, 4)
     # a std HashMap yields its entries in an order keyed by per-process random state: the entry points that consume one must
